@@ -334,7 +334,11 @@ def _format_default_value(
     from ..lang.printer import print_ast
     from ..utilities.ast_node_from_value import ast_node_from_value
 
-    return print_ast(ast_node_from_value(dv, input_value.type))
+    # Strings stay strings at every depth (as at the top level above): the
+    # reported text must read back as the declared value for any scalar.
+    return print_ast(
+        ast_node_from_value(dv, input_value.type, numeric_strings=False)
+    )
 
 
 __InputValue__ = ObjectType(
